@@ -461,6 +461,33 @@ def warm(node):
         pass
 
 
+def explicit_edges(specs, gate_edges=False):
+    """The topology that name inference would produce, declared by hand: one (producer, consumer, [names]) edge per pair and,
+    optionally, the (gate, target) pairs as well (discouraged in the docs because of how they are DRAWN; routing is unaffected)."""
+    def outs_of(x):
+        return list(x.get("outs", [])) if x["k"] != "graph" else list(x.get("flat_outputs", []))
+
+    def ins_of(x):
+        return list(x.get("params", [])) if x["k"] != "graph" else list(x.get("flat_inputs", []))
+
+    edges = {}
+    for c in specs:
+        for p in ins_of(c):
+            for m in specs:
+                if p in outs_of(m):
+                    edges.setdefault((m["name"], c["name"]), []).append(p)
+    out = [(a, b, names) for (a, b), names in edges.items()]
+    if gate_edges:
+        names = {x["name"] for x in specs}
+        for g in specs:
+            if g["k"] in ("ifelse", "route"):
+                ts = [g["t"], g["f"]] if g["k"] == "ifelse" else list(g["targets"])
+                for t in dict.fromkeys(ts):
+                    if t in names and (g["name"], t) not in edges:
+                        out.append((g["name"], t))
+    return out
+
+
 def make_graph(ctx: Ctx, gspec: dict, flavour: str = "sync"):
     nodes = [make_node(ctx, n, flavour) for n in gspec["nodes"]]
     kw = {}
@@ -470,6 +497,8 @@ def make_graph(ctx: Ctx, gspec: dict, flavour: str = "sync"):
         kw["strict_types"] = True
     if gspec.get("edges") is not None:
         kw["edges"] = [tuple(e[:2]) + ((list(e[2]),) if len(e) > 2 else ()) for e in gspec["edges"]]
+    elif gspec.get("explicit"):
+        kw["edges"] = explicit_edges(gspec["nodes"], gate_edges=gspec["explicit"] == "data+gate")
     g = Graph(nodes, **kw)
     if not gspec.get("no_decoy"):
         # a SIBLING derivation from the same base object, made first and then dropped: it binds every plain input the program
